@@ -4,6 +4,13 @@
 //! fast-path elsewhere (meta) deciding whether to re-hash, and never appear here.
 //! No I/O, so the whole case table is exhaustively unit-tested + Kani-proved.
 
+#[cfg(paiml_copia_verif)]
+#[allow(unused_imports)]
+use copia_simworld::shim::{fs2, std, tokio};
+#[cfg(paiml_copia_verif)]
+#[allow(unused_imports)]
+use copia_simworld::{eprintln, println};
+
 use serde::{Deserialize, Serialize};
 use std::collections::BTreeMap;
 use std::path::PathBuf;
